@@ -147,6 +147,10 @@ def main(argv):
                 c.coverage["refused_set_keys_histories_reproduced_by_model"] = c.coverage.get("refused_set_keys_histories_reproduced_by_model", 0) + (1 if ok_model else 0)
             if len(salts) == 3 and not (salts[1] == salts[0] + 1 and salts[2] == salts[1] + 1):
                 c.violation(label + ": the salt counter does not go on across the refused key change: %s" % salts, {"history": h, "salts": salts}, key="refused-set-keys:salt")
+    # ---- sessions that learn their engine id (None / b"", first probe lost and retried, key types mixed): every request after
+    # entry is encrypted and decrypts, under the privacy key localized to the engine id it carries, to the scoped PDU + padding
+    from lib import v3sessions
+    v3sessions.run(c, v3exe, "C11", {"priv-flag", "decrypt", "padding", "engine-id"})
     return c.finish(
         rule="%d privacy histories (DES and AES-128): 1..7 interleaved encrypts of Get/GetNext/GetBulk scoped PDUs (OIDs of 2..800 arcs, context engine ids "
              "0..32 octets, boots/time up to 2^32-1), decrypts of garbage (wrong sizes, short salts) and decrypts of genuine agent-encrypted "
